@@ -95,7 +95,7 @@ def run(ctx):
                     ck.ob("C12-R1", fn, "tablet-mode:timer-tick-sends-nothing", quiet)
 
     ck.floor("C12-R1", "step-events", n_step, 1)
-    ck.floor("C12-R1", "send-events", n_send, 4)
+    ck.floor("C12-R1", "send-events", n_send, 2)
 
     # R2: the two arms
     arms_seen = set()
